@@ -93,6 +93,15 @@ SPECS = [
              "S() == S0() + 'A<div><p title=\"' + piece(translate_result(0)) + '\">y</p></div>B'",
              "translate_result(0) is not None or S() == S0() + 'A<div><p>y</p></div>B'",
          ], raises={'*': {'ensures': ["raised('e1')"]}}, serves=['C10']),
+    dict(id='S-I18nAttributes-two',
+         # every entry of an i18n:attributes list has its OWN message id: the explicit one, or the
+         # attribute's text
+         text='A<p alt="x" title="y" i18n:attributes="alt mid; title">z</p>B',
+         ensures=[
+             "translate_calls() == 2",
+             "translate_arg(0, 'msgid') == 'mid' and translate_arg(0, 'default') == 'x'",
+             "translate_arg(1, 'msgid') == 'y' and translate_arg(1, 'default') == 'y'",
+         ], raises={'*': {'ensures': ["False"]}}, serves=['C10']),
 ]
 
 CONTRACTS = schema_contracts(SPECS)
